@@ -274,6 +274,27 @@ def concrete(repo, seed, tier):
                                             return ev, dict(function="srs", freq=freq.tolist(), stype=stype, ic=ic, getresp=getresp, time=tm, workers=ncpu,
                                                             order=None if perm is None else perm(len(freq)), what="parallel result is not bit-identical to serial",
                                                             serial=np.asarray(a).tolist(), parallel=np.asarray(b).tolist())
+        # several input columns (2-D signals), with and without response histories, default and explicit roll-off resampling
+        for ncol_ in (2, 3):
+            sigm = rng.randn(240, ncol_) + 0.3 * np.arange(ncol_)
+            for freq in (np.array([10.0, 30.0, 20.0]), np.array([0.0, 15.0, 40.0, 5.0])):
+                for stype, ic in (("absacce", "zero"), ("reldisp", "steady"), ("pvelo", "shift")):
+                    for getresp in (False, True):
+                        for roll in ("none", "lanczos"):
+                            with np.errstate(all="ignore"):
+                                ref = srs.srs(sigm, sr, freq, 20, ic=ic, stype=stype, getresp=getresp, parallel="no", rolloff=roll, ppc=8)
+                                for perm in (None, lambda n: list(range(n))[::-1]):
+                                    FakePool.order = perm
+                                    for ncpu in (1, 2):
+                                        got = srs.srs(sigm, sr, freq, 20, ic=ic, stype=stype, getresp=getresp, parallel="yes", maxcpu=ncpu, rolloff=roll, ppc=8)
+                                        ev += 1
+                                        a = ref[0] if getresp else ref
+                                        b = got[0] if getresp else got
+                                        same = np.array_equal(a, b, equal_nan=True) and (not getresp or (np.array_equal(ref[1]["hist"], got[1]["hist"], equal_nan=True)
+                                                                                                          and np.array_equal(ref[1]["t"], got[1]["t"])))
+                                        if not same:
+                                            return ev, dict(function="srs", freq=freq.tolist(), stype=stype, ic=ic, getresp=getresp, columns=ncol_, rolloff=roll, workers=ncpu,
+                                                            what="parallel result (%d input columns) is not bit-identical to serial" % ncol_)
         sig2 = rng.randn(1200)
         for freq in (np.array([10.0, 36.0, 20.0, 14.0, 28.0]), np.array([30.0, 20.0, 10.0]), np.array([10.0, 30.0, 20.0])):
             for resp in ("absacce", "pvelo"):
